@@ -311,4 +311,7 @@ P_C09 == [][(ev'.kind = "I" => RI_C09(ev'.i, ev'.o)) /\ (ev'.kind = "D" => RD_C0
 CsConsistent == Len(lru) = Cardinality(DOMAIN cs) /\ SeqToSet(lru) = DOMAIN cs /\ (cap >= 0 => TRUE)
 AllScheduled == \A k \in DOMAIN pit : pit[k].exp # -1
 TokensUnique == \A k1, k2 \in DOMAIN pit : pit[k1].tok = pit[k2].tok => k1 = k2
-=============================================================================
+\* ---- which faces are local (C09 rests on this classification, made where a transport is created) -----------------
+\* a face is local iff its peer is on this host: a loopback address, a Unix socket, or the internal (management) face
+FaceScope(kind, loopback) == IF kind \in {"unix", "internal"} \/ loopback THEN "local" ELSE "nonlocal"
+=========================================================================
